@@ -50,3 +50,16 @@ Inductive expr : Set :=
 | ESlice (l : expr) (s e : option expr)    (* l[s:e] *)
 | EDot (l : expr)                          (* l.key *)
 | EAssert (e : expr) (t : sty).            (* e.(T) *)
+
+(* statement contexts in which a value meets an expected type *)
+Inductive ctx : Set :=
+| CDecl                    (* x := e                       parseInferredDeclStatement *)
+| CAssign (t : sty)        (* v:T ; v = e                  parseAssignmentStatement *)
+| CParam (t : sty)         (* func f p:T ; f e             assertArgTypes *)
+| CVariadic (t : sty)      (* func f p:T... ; f e          assertArgTypes, variadic branch *)
+| CReturn (t : sty)        (* func f:T ; return e          parseReturnStatement *)
+| CGenericArr              (* parameter of type GENERIC_ARRAY (builtin) *)
+| CGenericMap              (* parameter of type GENERIC_MAP   (builtin has/del) *)
+| CCond                    (* if e / while e               parseCondition *)
+| CRange.                  (* for x := range e             parseForStatement *)
+
